@@ -49,6 +49,49 @@ func runC06(cx *ctx) {
 		rb := r.Fork()
 		cx.ru.Do(func() *h.Case { return bigCounterCase(rb, 257) })
 	}
+	// a system random source that fails after L bytes: Encrypt must refuse — a file whose file key, ephemeral
+	// secret, salt or nonce was NOT drawn from the source (zero, left over, constant) must never be written
+	for kind := 0; kind < 5; kind++ {
+		rr := r.Fork()
+		var ps []*party
+		if kind == 4 {
+			ps = []*party{mkParty(rr, 0), newCustom([]*age.Stanza{greaseStanza(rr)}, nil, false, false), mkParty(rr, 1)}
+		} else {
+			ps = []*party{mkParty(rr, kind)}
+		}
+		var recs []age.Recipient
+		var ds []string
+		for _, p := range ps {
+			recs, ds = append(recs, p.rec), append(ds, p.recD)
+		}
+		pt := rr.Bytes(20)
+		_, err0, draws := realEncryptFile(rr.Bytes(400), recs, [][]byte{pt}, false)
+		need := 0
+		for _, d := range draws {
+			need += d
+		}
+		if err0 != nil || need == 0 {
+			panic(fmt.Sprint("short-tape setup: ", err0, need))
+		}
+		for L := 0; L < need; L++ {
+			if cx.quick && L%3 != 0 && L != need-1 && L != 15 && L != 16 {
+				continue
+			}
+			L := L
+			rb := rr.Fork()
+			cx.ru.Do(func() *h.Case {
+				tape := rb.Bytes(L)
+				file, err, _ := realEncryptFile(tape, recs, [][]byte{pt}, false)
+				impl, oracle := "err", ""
+				if err == nil {
+					impl = "ok " + h.Sum(file)
+					oracle = fmt.Sprintf("Encrypt wrote a complete file although the random source failed after %d of the %d bytes it needs", L, need)
+				}
+				return &h.Case{Kind: "rand-fails/" + labelsOf(ps), Line: fmt.Sprintf("fenc %s %s %s", h.Hex(tape), joinD(ds), h.Hex(pt)), Impl: impl, Oracle: oracle,
+					NonTrivial: true, Canon: canonEnc, Note: fmt.Sprintf("random source fails after %d of %d bytes", L, need)}
+			})
+		}
+	}
 	for i := 0; i < cx.n(500, 5000); i++ {
 		rr := r.Fork()
 		cx.ru.Do(func() *h.Case {
